@@ -50,7 +50,8 @@ class DecPort(object):
     def __init__(self, data, nsub, compressed):
         self.src = BitSrc(data)
         self.nsub, self.comp = nsub, compressed
-        self.nbincs = []           # (item index placeholder) widths seen, for the independent reader of C05
+        self.nbincs = []           # difference widths seen
+        self.columns = []          # compressed: (kind, width, base raw, nbinc, [increments]) per item
 
     def uint(self, w, info):
         s = self.src
@@ -60,6 +61,8 @@ class DecPort(object):
         base = s.get(w)
         nb = s.get(6)
         self.nbincs.append(nb)
+        col = ('u', w, base, nb, [])
+        self.columns.append(col)
         if w > 1 and base == ones(w):
             base = None
         if nb == 0:
@@ -67,6 +70,7 @@ class DecPort(object):
         out = []
         for _ in range(self.nsub):
             inc = s.get(nb)
+            col[4].append(inc)
             if inc == ones(nb):
                 out.append(None)
             else:
@@ -82,6 +86,7 @@ class DecPort(object):
         base = s.get_signmag(w)
         nb = s.get(6)
         self.nbincs.append(nb)
+        self.columns.append(('i', w, base, nb, []))
         if nb != 0:
             raise RefError('compressed: new reference values must be shared by all subsets')
         return [base] * self.nsub
@@ -93,13 +98,19 @@ class DecPort(object):
         base = s.get_bytes(nbytes)
         nb = s.get(6)
         self.nbincs.append(nb)
+        col = ('s', nbytes * 8, base, nb, [])
+        self.columns.append(col)
         if nb == 0:
             return [base] * self.nsub
         if base != b'\0' * nbytes:
             raise RefError('compressed string column with non-zero base and increments (outside the envelope)')
-        return [s.get_bytes(nb) for _ in range(self.nsub)]
+        for _ in range(self.nsub):
+            col[4].append(s.get_bytes(nb))
+        return list(col[4])
 
     def const(self, info):
+        if self.comp:
+            self.columns.append(('c', 0, 0, 0, []))
         return [0] * (self.nsub if self.comp else 1)
 
 
@@ -111,6 +122,7 @@ class EncPort(object):
         self.buf = BitBuf()
         self.chooser, self.nsub, self.comp = chooser, nsub, compressed
         self.nbincs = []
+        self.str_inputs = {}       # (item index, subset) -> the character value as the user supplied it
 
     def _col(self, info):
         r = self.chooser(info)
@@ -183,10 +195,14 @@ class EncPort(object):
         def octets(r):
             return b'\xff' * nbytes if r is None else fit_bytes(r, nbytes)
         if not self.comp:
-            r = octets(self.chooser(info))
+            r0 = self.chooser(info)
+            self.str_inputs[(info['index'], info['subset'])] = r0
+            r = octets(r0)
             b.put_bytes(r)
             return [r]
         col, spec = self._col(info)
+        for k, r0 in enumerate(col):
+            self.str_inputs[(info['index'], k)] = r0
         col = [octets(r) for r in col]
         if all(c == col[0] for c in col):
             b.put_bytes(col[0])
@@ -525,6 +541,7 @@ def decode(B, D, descs, nsub, compressed, data):
             it.run(descs)
             notes += it.ambiguous
             out.append(_collect(it, 0))
+    decode.last_port = port
     return out, notes, port.src.pos
 
 
@@ -544,6 +561,7 @@ def encode(B, D, descs, nsub, compressed, chooser):
             it.run(descs)
             notes += it.ambiguous
             out.append(_collect(it, 0))
+    encode.last_port = port
     return port.buf, out, notes, port.nbincs
 
 
